@@ -173,6 +173,8 @@ def eager_action_rules(ctx: Ctx, rule: str) -> None:
                     return ("broker", op)
             if node.kind == "raise" and isinstance(node.ast, ast.Raise):
                 exc = node.ast.exc
+                if isinstance(exc, ast.Call):
+                    exc = C.call_as_expr(ctx, node.func, exc)  # `raise self.__no_action(...)`: a private builder that returns the _NoAction(...) construction
                 d = dotted(exc.func) if isinstance(exc, ast.Call) else (dotted(exc) if exc is not None else None)
                 return "raise _NoAction" if d and d.split(".")[-1] == "_NoAction" else f"raise {d}"
             if node.kind == "return" and node.func is f:
@@ -219,7 +221,7 @@ def lazy_callback_rules(ctx: Ctx, rule: str) -> None:
             if isinstance(a2, ast.Name) and a2.id in binding:
                 a2 = binding[a2.id]
             c1 = isinstance(a1, ast.Call) and dotted(a1.func) == "len" and len(a1.args) == 1 and dotted(a1.args[0]) == "self._callbacks"
-            inner = f.nested.get(a2.id) if isinstance(a2, ast.Name) else None
+            inner = C.nested_of(f, a2.id) if isinstance(a2, ast.Name) else None
             c2 = inner is not None and inner.is_async and any(
                 C.bucket_op(ctx, n, ("store_bucket",)) for n in ctx.cfg(inner).calls())
             ok = c0 and c1 and c2
